@@ -99,6 +99,7 @@ def window_unit(u, res):
     return res
 
 
+@symnp.outside_session
 def replay_window(B, W, n, d):
     ln = np.linalg.norm((d + np.array(n)) @ B)
     lw = min(np.linalg.norm((d + np.array(w)) @ B) for w in W)
@@ -160,6 +161,7 @@ def reduction_unit(u, res):
     return res
 
 
+@symnp.outside_session
 def replay_reduction(L, x, p):
     from phonopy.structure.cells import ShortestPairs
     sp = ShortestPairs.__new__(ShortestPairs)
